@@ -42,6 +42,8 @@ type Engine struct {
 	keyOf   map[*ssa.Function]string
 	allFns  []*ssa.Function
 	sccOnce sync.Once
+	namesOnce sync.Once
+	baseNames map[string]funcNames
 	sccID   map[string]int
 	callAdj map[string][]string
 	modsets map[*ssa.Function]map[string]bool
